@@ -59,31 +59,49 @@ def store_events_for(trace, line):
     return impl, trace[line - 1]
 
 
-def store_validate(ctx, trace_path, what):
-    trace = read_trace(trace_path)
-    mism = trace_check(ctx, "Trace_Store", trace_path)
-    bad_hist = set()
-    # histories = Reset-delimited segments
-    seg, segs = 0, []
-    for e in trace:
-        if e["ev"] == "Reset":
-            seg += 1
-        segs.append(seg)
-    for line, fields in mism:
-        impl, e = store_events_for(trace, line)
-        bad_hist.add(segs[line - 1])
-        ctx.violations.append({"key": "%s/%s" % (impl, e["ev"]), "detail": "%s: %s on %s not explained by QuadStore (trace %s line %d)" % (what, e["ev"], impl, trace_path, line),
-                               "event": e, "impl": impl, "trace": trace_path, "line": line})
-    ctx.traces_validated += seg - len(bad_hist)
-    for e in trace:
-        if e["ev"] in ("Match", "Insert", "Remove", "RemoveMatching", "InsertAll", "Terms", "Probe"):
-            ctx.distinct.add(h(e))
-    if len(ctx.samples) < 6:
+def store_validate(ctx, trace_path, what, chunk_events=150000):
+    """Validates a store trace in chunks cut at Reset events (a chunk = whole histories), so that neither TLC nor this process
+    ever holds more than one chunk: thorough traces run to millions of events."""
+    def flush(lines, idx):
+        if not lines:
+            return
+        part = "%s.part%d" % (trace_path, idx)
+        with open(part, "w") as f:
+            f.writelines(lines)
+        trace = [json.loads(l) for l in lines]
+        mism = trace_check(ctx, "Trace_Store", part, tag="Trace_Store_%s_%d" % (os.path.basename(trace_path), idx))
+        bad_hist = set()
+        seg, segs = 0, []
         for e in trace:
-            if e["ev"] == "Match" and e["rows"]:
-                ctx.samples.append({"what": what, "event": "Match", "matchers": e["ms"], "rows_returned": len(e["rows"])})
-                break
-    return trace
+            if e["ev"] == "Reset":
+                seg += 1
+            segs.append(seg)
+        for line, fields in mism:
+            impl, e = store_events_for(trace, line)
+            bad_hist.add(segs[line - 1])
+            ctx.violations.append({"key": "%s/%s" % (impl, e["ev"]), "detail": "%s: %s on %s not explained by QuadStore (trace %s line %d)" % (what, e["ev"], impl, part, line),
+                                   "event": e, "impl": impl, "trace": part, "line": line})
+        ctx.traces_validated += seg - len(bad_hist)
+        for e in trace:
+            if e["ev"] in ("Match", "Insert", "Remove", "RemoveMatching", "InsertAll", "Terms", "Probe"):
+                ctx.distinct.add(h(e))
+        if len(ctx.samples) < 6:
+            for e in trace:
+                if e["ev"] == "Match" and e["rows"]:
+                    ctx.samples.append({"what": what, "event": "Match", "matchers": e["ms"], "rows_returned": len(e["rows"])})
+                    break
+        if not mism:
+            os.remove(part)
+    lines, idx = [], 0
+    with open(trace_path) as f:
+        for l in f:
+            if not l.strip():
+                continue
+            if len(lines) >= chunk_events and '"ev":"Reset"' in l[:40]:
+                flush(lines, idx)
+                lines, idx = [], idx + 1
+            lines.append(l)
+    flush(lines, idx)
 
 
 def c01(ctx):
@@ -107,19 +125,23 @@ def c01(ctx):
     if st["uncovered"]:
         raise ToolError("transition tour left %d edges uncovered" % st["uncovered"])
     ctx.notes.append("Gen_Store: %d transitions of %d states covered by %d histories (%d steps)" % (st["edges"], st["states"], st["histories"], st["steps"]))
+    main8 = "FastDataset<Tiny2>,FastDataset,LightDataset<Tiny3>,HashSet<Spog>,BTreeSet<Gspo>,Vec<Spog>,FastGraph,LightGraph<Tiny3>"
     if ctx.quick():
-        hists = [x for i, x in enumerate(hists) if (i + ctx.seed) % 6 == 0]
-        impls = "FastDataset<Tiny2>,FastDataset,LightDataset<Tiny3>,HashSet<Spog>,BTreeSet<Gspo>,Vec<Spog>,FastGraph,LightGraph<Tiny3>"
+        passes = [([x for i, x in enumerate(hists) if (i + ctx.seed) % 6 == 0], main8)]
     else:
-        impls = "all"
+        # every transition on the 8 most different implementations, every third history (rotating with the seed) on all 25
+        passes = [(hists, main8), ([x for i, x in enumerate(hists) if (i + ctx.seed) % 3 == 0], "all")]
         ctx.exhaustive = True
-    genf = os.path.join(ctx.gen, "store_hist.ndjson")
-    with open(genf, "w") as f:
-        for x in hists:
-            f.write(json.dumps(x) + "\n")
-    tr1 = os.path.join(ctx.traces, "replay.ndjson")
-    sv(binary, ["store", "--mode", "replay", "--gen", genf, "--impls", impls, "--out", tr1])
-    store_validate(ctx, tr1, "spec->impl replay")
+    for k, (hs, impls) in enumerate(passes):
+        genf = os.path.join(ctx.gen, "store_hist_%d.ndjson" % k)
+        with open(genf, "w") as f:
+            for x in hs:
+                f.write(json.dumps(x) + "\n")
+        tr1 = os.path.join(ctx.traces, "replay_%d.ndjson" % k)
+        sv(binary, ["store", "--mode", "replay", "--gen", genf, "--impls", impls, "--out", tr1], timeout=6000)
+        store_validate(ctx, tr1, "spec->impl replay")
+        if not ctx.quick():
+            os.remove(tr1)
     # (3) implementation -> spec: seeded random histories over the large alphabet, every implementation
     tr2 = os.path.join(ctx.traces, "random.ndjson")
     nh, ln = (12, 60) if ctx.quick() else (120, 120)
@@ -131,7 +153,7 @@ def c01(ctx):
     store_validate(ctx, tr3, "16-bit exhaustion")
     mc.join()
     ctx.rule = ("MC_Store: StoreImpl (2 terms, capacity 2, <=2 quads) refines the set, 875 matcher tuples per state; Gen_Store: every transition of that "
-                "model replayed on the real stores (quick: every 6th history, 8 implementations; thorough: all, 25 implementations); "
+                "model replayed on the real stores (quick: every 6th history, 8 implementations; thorough: all histories on those 8 and every 3rd history on all 25 implementations); "
                 "random histories (%d per implementation x %d ops, 14-term alphabet, all shipped matcher kinds) on 25 implementations; "
                 "u16 exhaustion on the 4 small:: stores. distinct = distinct mutation/query events (args+result)." % (nh, ln))
     ctx.assumptions += ["TLC and the CommunityModules Json reader are trusted", "harness abstraction function (util.rs term_json) is trusted",
@@ -365,6 +387,9 @@ def iri_family(ctx, mode):
         elif e["ev"] == "AsBase":
             o = e["outs"][idx - 1]
             key, detail = "as-base-panic/" + o["via"], "%s panics on the accepted value %r" % (o["via"], uncps(e["s"]))
+        elif e["ev"] == "NsGet":
+            key = "namespace/" + code
+            detail = "%s: Namespace::new(%r) -> %s, .get(%r) -> %s <%s>%s" % (code, uncps(e["ns"]), "ok" if e["new_ok"] else "err", uncps(e["suffix"]), "ok" if e["get_ok"] else "err", uncps(e["iri"]), " PANIC" if e["panic"] else "")
         else:
             key = "relativize/" + code
             detail = "relativize(base=<%s>, iri=<%s>, parents=%d) -> %s %r; resolves back to %r" % (uncps(e["base"]), uncps(e["iri"]), e["n"], e["k"], uncps(e["out"]), uncps(e["back"]["out"]))
@@ -589,7 +614,7 @@ def c13(ctx):
     mc = Bg(lambda: model_check(ctx, "MC_Sparql", workers=2, timeout=600))
     tr = os.path.join(ctx.traces, "sparql.ndjson")
     n = 6000 if ctx.quick() else 120000
-    sv(binary, ["sparql", "--mode", "c13", "--n", n, "--seed", ctx.seed, "--expr-stride", 4 if ctx.quick() else 1, "--out", tr], ctx=ctx)
+    sv(binary, ["sparql", "--mode", "c13", "--n", n, "--seed", ctx.seed, "--expr-stride", 4 if ctx.quick() else 1, "--num-universe", os.path.join(HARNESS, "sparql_num_universe.json"), "--out", tr], ctx=ctx)
     trace = read_trace(tr)
     mism = trace_check(ctx, "Trace_Sparql", tr, timeout=6000)
     bad = set()
